@@ -49,6 +49,7 @@ def run(ctx):
     C08.check_padding(ctx, facts)            # operators keep the padding zero, so every in-memory value has an encoding that decodes
     event_type(ctx, facts)
     codecs(ctx, facts)
+    exact_length(ctx, facts)
     ctx.assume("round-trip equality and bit-matrix transposes are numerical and not decided; curve25519-dalek's decompress / scalar parsing are trusted")
 
 
@@ -583,3 +584,50 @@ def query_string_fields(ctx, facts):
         else:
             ok = bool(own_guard)
             ctx.ob("FIELDS-query", f"HybridQueryParams.{fld}", ok, "flag: a literal is written under a test of the field itself" if ok else f"`{fld}` never reaches the query string", site_of(b))
+
+
+# ---------------------------------------------------------------------------------------------
+def exact_length(ctx, facts):
+    """A decoder that looks only at a prefix of its input accepts every extension of a valid encoding."""
+    ctx.rule("EXACT-length: every slice decoder of the report metadata (report::hybrid_info::*::from_bytes) returns Ok only behind a branch edge that pins the length of its input (or of the remainder it has not yet consumed) with an equality: trailing bytes are an error, as in the sibling decoders")
+    n = 0
+    delegated = {}
+    for root in sorted(facts.by_root):
+        if not re.search(r"^report::hybrid_info::\w+::from_bytes$", root) or facts.is_test_path(root):
+            continue
+        b = facts.bodies.get(root)
+        if b is None:
+            continue
+        n += 1
+        ctx.count(bodies=1)
+        dom = b.dominators()
+        oks = [bb for bb, idx, s in b.iter_assigns() if s["p"] == [0] and s["r"]["k"] == "agg" and s["r"].get("adt") == "std::result::Result" and s["r"].get("vn") == "Ok"]
+        def pins(f):
+            op, l, r = f
+            if op != "Eq" or l is None or r is None:
+                return False
+            for x, y in ((l, r), (r, l)):
+                if x[0] == "call" and x[1].endswith("<impl [T]>::len") and ("arg", 1) in [z[:2] for z in _walk(x)] or (x[0] == "call" and x[1].endswith("::len") and "arg', 1" in str(x)):
+                    return True
+            return False
+        good = bool(oks) and all(flow.holds(b, dom, o, pins) for o in oks)
+        # slice patterns (`let &[a] = bytes`) compile to a length switch as well: accept an exact-length pattern edge
+        if not good and oks:
+            def pins_len(f):
+                op, l, r = f
+                return op == "Eq" and l is not None and l[0] == "len" or (op == "Eq" and l is not None and "len" == l[0])
+            good = all(flow.holds(b, dom, o, pins_len) for o in oks)
+        if not good and oks:
+            # whole input handed to a sibling decoder whose verdict is `?`-propagated
+            for cbb, ct in b.calls():
+                fn = F.callee(ct)[0] or ""
+                if re.search(r"^report::hybrid_info::\w+::from_bytes$", fn) and fn != root and flow.expr_of(b, ct["args"][0]) == ("arg", 1) and len(ct["d"]) == 1 and flow.question_mark(b, ct["d"][0]) is not None and all(flow.dominates(dom, cbb, o) for o in oks):
+                    delegated.setdefault(root, fn)
+                    good = None
+        ty = root.split("::")[-2]
+        if good is None:
+            continue
+        ctx.ob("EXACT-length", ty, good, "Ok only if the input length is pinned by an equality" if good else f"{ty}::from_bytes can return Ok after reading only a prefix of its input: a record with bytes appended to its metadata is accepted (and decrypts, because the appended bytes are not part of the bound info) - the sibling decoder rejects trailing bytes", site_of(b, oks[0]) if oks else site_of(b))
+    for root, callee in sorted(delegated.items()):
+        ctx.ob("EXACT-length", root.split("::")[-2], True, f"hands its whole input to {callee.split('::')[-2]}::from_bytes and propagates its verdict")
+    ctx.floor("EXACT-length", "report metadata slice decoders", n, 2)
